@@ -179,12 +179,19 @@ package index
 //@   end
 
 //@ func ReadFrom
+//@   let idx, nerr := call[New#0]
+//@   let uerr := call[Index.Unmarshal#0]
+//@   call[Index.Unmarshal#0] assert into_the_new_index [C11]: ref(arg0) == ref(idx)
+//@   ensures the_unmarshalled_index [C11]: err == nil ==> ref(result0) == ref(idx) && nerr == nil && uerr == nil
+//@   ensures failure_returns_no_index [C09,C11]: err != nil ==> result0 == nil
 //@   modifies pos(r)
 //@   let codec, cerr := call[ReadCodec#0]
 //@   call[New#0] assert codec_from_prefix [C11]: arg0 == codec
 //@   call[Index.Unmarshal#0] assert same_reader [C11]: ref(arg1) == ref(r)
 
 //@ func ReadCodec
+//@   let code, verr := call[varint.ReadUvarint#0]
+//@   ensures is_the_first_varint [C11]: err == nil ==> verr == nil && result0 == code
 //@   modifies pos(r)
 //@   ensures eof_clean [C02]: err == io.EOF ==> pos(r) == old(pos(r))
 //@   ensures consumed [C11]: err == nil ==> pos(r) == old(pos(r)) + vsize(result0)
@@ -290,3 +297,20 @@ package index
 //@     call[dynamic#0] assert yields_own_cid_and_offset [C07,C11]: arg0 == r.Cid && arg1 == r.Offset
 //@     ensures stops_at_first_error [C07,C11]: result == (ferr == nil) && err == ferr
 //@   end
+
+//@ func New
+//@   ensures sorted_for_0x0400 [C05,C11]: codec == 1024 ==> err == nil && typeis(result0, "*v2/index.multiWidthIndex")
+//@   ensures mh_sorted_for_0x0401 [C05,C11]: codec == 1025 ==> err == nil && typeis(result0, "*v2/index.MultihashIndexSorted")
+//@   ensures other_codecs_rejected [C09,C11]: codec != 1024 && codec != 1025 ==> err != nil && result0 == nil
+
+//@ func GetFirst
+//@   call[Index.GetAll#0] assert same_key [C03,C07]: ref(arg0) == ref(idx) && arg1 == key
+//@   closure[0]
+//@     ensures stops_at_the_first_candidate [C03,C07]: result == false && firstOffset == offset
+//@   end
+
+//@ func newSorted
+//@   ensures kind [C05,C11]: result != nil && typeis(result, "*v2/index.multiWidthIndex")
+
+//@ func NewMultihashSorted
+//@   ensures kind [C05,C11]: result != nil
